@@ -122,6 +122,10 @@ def check(ctx):
         for e in walk_block(f.body):
             if e.get("k") == "mcall" and expr_text(e["recv"]) == "self":
                 called.add(e["method"])
+    for f in list(targets):
+        for e in walk_block(f.body):
+            if e.get("k") == "call" and e["func"].get("k") == "path" and len(e["func"]["segs"]) == 2 and e["func"]["segs"][0] in ("Self", "SerdeParser"):
+                called.add(e["func"]["segs"][1])
     targets += [f for f in S.fns if f.body is not None and f.owner == "SerdeParser" and f.name in called]
     for f in targets:
         lits = []
@@ -136,6 +140,31 @@ def check(ctx):
                      "%s::%s recognises attribute syntax by substring search on the token string: %s" % (f.owner, f.name, sorted(set(lits))), f.file, f.line))
         else:
             r3.ok("%s::%s works on the token structure" % (f.owner, f.name))
+    # a value that is skipped must be parsed as ONE expression/literal: an unbounded token-stream parse swallows the rest of the list
+    for f in targets:
+        for st in [x for x in S.fns if x is f][0:1]:
+            pass
+        def lets_(stmts):
+            for stt in stmts or []:
+                if isinstance(stt, dict) and stt.get("k") == "let":
+                    yield stt
+                for e2 in (stmt_exprs(stt) if isinstance(stt, dict) else []):
+                    for x in walk(e2):
+                        for key in ("then", "stmts", "body"):
+                            v = x.get(key)
+                            if isinstance(v, list):
+                                yield from lets_(v)
+                        if x.get("k") == "closure" and isinstance(x.get("body"), dict) and x["body"].get("k") == "block":
+                            yield from lets_(x["body"]["stmts"])
+        for lt in lets_(f.body):
+            ty = (lt["pat"].get("ty") or "") if lt["pat"].get("k") == "typed" else ""
+            it = expr_text(lt["init"]) if lt.get("init") else ""
+            if ".value()" in it and ".parse()" in it:
+                if re.search(r"TokenStream|TokenTree|\bGroup\b", ty):
+                    r3.bad(V(r3.id, "%s::%s" % (f.owner, f.name), "unbounded-value-parse:%s" % re.sub(r"\s+", "", ty),
+                             "a meta-item value is parsed as %s, which consumes every remaining token of the attribute list: a `rename`/`skip` written after it is lost" % ty.strip(), f.file, lt.get("ln")))
+                else:
+                    r3.ok("%s::%s: value parsed as %s" % (f.owner, f.name, ty.strip() or "an inferred bounded type"))
     # every attribute of the item is visited: serde merges all #[serde(..)] attributes of an item, so the loop over `attrs` must not stop early
     def loop_exits(stmts):
         out = []
